@@ -71,11 +71,19 @@ def build(rng, exports, system, nt, ntv, weak=False, soft=False):
         vb = CijVolumeBaseInterface(stub)
     except (AttributeError, TypeError) as ex:
         raise StubUnavailable(repr(ex))
+    except Exception as ex:                       # the package's own inversion failed on a positive-definite field
+        raise CodeRaised(ex, {"system": system, "keys": ["%d%d" % k for k in keys], "soft": soft, "weak": weak})
     return stub, vb, C, pd, keys, v
 
 
 class StubUnavailable(Exception):
     pass
+
+
+class CodeRaised(Exception):
+    def __init__(self, ex, case):
+        super().__init__(repr(ex))
+        self.ex, self.case = ex, case
 
 
 def end_to_end(ctx, rng, exports, forms, records, n):
@@ -203,6 +211,11 @@ def main(ctx, replay=None):
                 stub_ok = False
                 ctx.cov["injected_field_path"] = f"unavailable: {ex}"
                 break
+            except CodeRaised as cr:
+                ctx.count(cr.case)
+                ctx.violation(f"{system}: computing the compliances of a positive-definite stiffness field raised {cr.ex!r}", cr.case,
+                              {"system": system, "clause": "raises"})
+                continue
             case = {"system": system, "keys": ["%d%d" % k for k in keys], "mass": stub.elast_data.cellmass}
             ctx.count(case)
             sig = {"system": system}
